@@ -169,7 +169,12 @@ def check_balance(case, ctx: Ctx):
             return f"bin {i} is {'NaN' if not fin[i] else 'finite'} but the documented filters say {'masked' if ref_nan[i] else 'kept'}"
         return None
 
-    mp = mask_problem(1, False)
+    conv_all = bool(np.all(np.atleast_1d(np.asarray(stats["converged"]))))
+    blown = bool(np.any(~np.isfinite(np.atleast_1d(var)))) or (bool(np.any(np.abs(w[fin]) > 1e60)) if fin.any() else False)
+    # The property speaks of runs that report convergence.  A run that does not converge may diverge numerically
+    # (weights beyond 1e60, infinite variance), where NaN/inf patterns depend on the order of floating-point
+    # operations; the mask is then compared only if nothing blew up.
+    mp = mask_problem(1, False) if (conv_all or not blown) else None
     used_known = []
     if mp is not None:
         mp2 = mask_problem(dw, cw) if (dw, cw) != (1, False) else mp
